@@ -244,3 +244,8 @@ LEVEL_TEXT = ("Proof: the Coq theorems of Properties/C01.v state every clause fo
               "space through the real API on every run.")
 LEVEL_NOTE = "Trusted: Coq kernel + vm_compute; the transcription Model/Packet.v (exhaustively compared on the affected bytes); extraction and executor glue."
 TECHNIQUE = "Coq proof (finite reflection per header byte + list-update lemmas) + exhaustive model/implementation correspondence on header bytes x field values"
+
+
+# coverage round (notes/coverage.md): cases and support theorems for exported identifiers outside the property text
+from gen import covlib
+covlib.install(globals())
